@@ -563,6 +563,12 @@ def _run_entry(cfg, circ, qarg, qs, istate, has_init, touched):
     raise core.HarnessError(f"cfg {cfg}")
 
 
+def _sig(config, split, init, oi, ops):
+    """Signature fields of a violation (used to match entries of known_findings.json; never to suppress anything here)."""
+    return {"config": config, "split": bool(split), "init_kind": init[0], "order": ORDER_NAMES[oi],
+            "has_global_phase_op": any(len(o.qubits) == 0 for o in ops)}
+
+
 def run_main(case):
     alph, seq, layout, oi, init, ci = case
     seq = tuple(seq)
@@ -605,7 +611,7 @@ def run_main(case):
         raise
     except Exception as e:  # every case is an accepted input (unitary ops, valid state, valid order): no rejection is legal
         return bad(f"{kind}[{dt},split={split}] raised {type(e).__name__}: {e}\n{ctx()}\n{traceback.format_exc(limit=-6)}",
-                   kind="exception", config=kind, exception=type(e).__name__)
+                   kind="exception", exception=type(e).__name__, **_sig(kind, split, init, oi, ops))
     if rk == "unitary":
         r = _cmp(f"{kind}[{dt}]", U, val, atol, ctx)
     elif rk == "vec":
@@ -644,7 +650,7 @@ def run_main(case):
                 f = np.outer(f, f.conj())
             r = _cmp(f"{kind}[{dt},split={split}] last step vs program-order product", f, val[-1], atol, ctx)
     if r is not None:
-        r.sig["config"] = kind
+        r.sig.update(_sig(kind, split, init, oi, ops))
         return r
     return good(nontrivial=_nontrivial(ops, qs), sims=1)
 
@@ -704,7 +710,7 @@ def run_sweep(case):
         results = list(sim.simulate_sweep(circ, cirq.Points("s", list(pts)), **kw))
     except Exception as e:
         return bad(f"simulate_sweep {kind}[{dt},split={split}] raised {type(e).__name__}: {e}\n{ctx()}\n{traceback.format_exc(limit=-6)}",
-                   kind="exception", config="sweep-" + kind, exception=type(e).__name__)
+                   kind="exception", exception=type(e).__name__, **_sig("sweep-" + kind, split, init, oi, ops))
 
     if len(results) != len(pts):
         return bad(f"simulate_sweep returned {len(results)} results for {len(pts)} points\n{ctx()}", kind="sweep_len")
@@ -717,7 +723,7 @@ def run_sweep(case):
             r = _cmp(f"DM simulate_sweep[{dt},split={split}] point s={pts[pi]} final density matrix", np.outer(f, f.conj()),
                      res.final_density_matrix, atol, ctx)
         if r is not None:
-            r.sig["config"] = "sweep-" + kind
+            r.sig.update(_sig("sweep-" + kind, split, init, oi, ops))
             return r
     nt = _nontrivial([letters[li].op for li in seq], qs) and any(mask)
     return good(nontrivial=nt, sims=len(pts), prefix_ops=sum(1 for m in mask if not m))
@@ -753,6 +759,7 @@ def run_classical(case):
     exp_bits = _digits(idx, [2, 2, 2])
     in_bits = _digits(k, [2, 2, 2])
     meas = cirq.Moment(cirq.measure(*qs, key="m"))
+    has_perm = any(isinstance(o.gate, cirq.QubitPermutationGate) for o in ops)
     sim = cirq.ClassicalStateSimulator()
     body = _build(ops, layout)
 
@@ -765,7 +772,7 @@ def run_classical(case):
         rec = sim.run(circ, repetitions=2).records["m"]
         got = [[int(x) for x in rec[r][0]] for r in range(2)]
         if got != [exp_bits, exp_bits]:
-            return bad(f"ClassicalStateSimulator.run measured {got}, reference {exp_bits} (both repetitions)\n{ctx()}", kind="classical", config="cl-run")
+            return bad(f"ClassicalStateSimulator.run measured {got}, reference {exp_bits} (both repetitions)\n{ctx()}", kind="classical", config="cl-run", has_permutation_gate=has_perm)
     else:
         circ = body + cirq.Circuit(meas)
         istate = in_bits if mode == 3 else k
@@ -781,7 +788,8 @@ def run_classical(case):
             res = sim.simulate(circ, qubit_order=list(qs), initial_state=istate)
             got = [int(x) for x in res.measurements["m"]]
         if got != exp_bits:
-            return bad(f"ClassicalStateSimulator {CL_MODES[mode]} measured {got}, reference {exp_bits}\n{ctx()}", kind="classical", config="cl-" + CL_MODES[mode])
+            return bad(f"ClassicalStateSimulator {CL_MODES[mode]} measured {got}, reference {exp_bits}\n{ctx()}", kind="classical", config="cl-" + CL_MODES[mode],
+                       has_permutation_gate=has_perm)
     return good(nontrivial=_nontrivial(ops, qs), sims=1)
 
 
